@@ -82,7 +82,10 @@ def to_array(x, cfg=None):
     """Samples are numpy arrays; integer-valued samples are sometimes handed over with an integer dtype (0/1 data)."""
     import numpy as _np
     if cfg is not None and cfg.get("int_dtype") and all(float(v).is_integer() for v in x):
-        return _np.array([int(v) for v in x], dtype=int)
+        dt = cfg["int_dtype"]
+        # 0/1 data arrive as whatever the caller's pipeline produced: int64, or a narrow type (uint8 / int8 / int32 / bool
+        # marks) whose running total does not fit the type itself
+        return _np.array([int(v) for v in x], dtype=(int if dt is True else dt))
     return _np.array(x, dtype=float)
 
 
@@ -101,7 +104,7 @@ def dyadic(rng, lo, hi, bits=4):
     return rng.randint(a, b) / s
 
 
-U_CHOICES = (1.0, 1.0, 1.0625, 1.5, 2.0, 1 + 2.0 ** -20, 1.25, 1.015625)
+U_CHOICES = (1.0, 1.0, 1.0625, 1.5, 2.0, 1 + 2.0 ** -20, 1.25, 1.015625, 0.75, 0.9375)  # u < 1: polling a super-majority with share > 1/2
 
 
 def gen_cfg(rng, combo=None, finite=None, n_max=12, allow_not_random=True, u=None, t=None):
@@ -163,7 +166,7 @@ def gen_cfg(rng, combo=None, finite=None, n_max=12, allow_not_random=True, u=Non
     if N != "inf" and rng.random() < 0.25:
         cfg["N_warm"] = rng.choice((N + 1, N + 7, 2 * N, max(1, N - 1), 1000))
     if u == 1.0 and rng.random() < 0.3:
-        cfg["int_dtype"] = True
+        cfg["int_dtype"] = rng.choice((True, True, "uint8", "int8", "int32", "bool"))
     if rng.random() < 0.15:
         cfg["reused"] = True
     return cfg
